@@ -272,7 +272,7 @@ def run(ctx):
                 "one mock CA per endpoint, one phase per restart/renewal) and deduplicated by a canonical key (configuration indices; per endpoint: URL stored?, stored key "
                 "fingerprint = current/past/none, stored contact fingerprint current?, CA's record relative to the daemon's keys and contacts; number of superseded keys). "
                 "Invariants on every renewal transition. Interrupted synchronisations: issue, edit (contacts/key/both/binding), a renewal in which each request position in turn is refused or cut, "
-                "optional restart, clean renewal. E4: account shapes saved and loaded back; every truncation point of account files.") % (depth, n_ca)
+                "optional restart, clean renewal. Local failures: registration / contact update / roll-over / both with every hook invocation of the renewal failing in turn, two attempts of one process. E4: account shapes saved and loaded back; every truncation point of account files.") % (depth, n_ca)
     seen = {}
     core_of = {(): ("initial",)}
     frontier = [[]]
@@ -401,6 +401,63 @@ def run(ctx):
         for (oracle, sig, ex, ob) in viols:
             res.violation(oracle, sig + "|interrupted-at=%s" % q["meta"]["fault"][0], ex, ob + " (fault %s at %s)" % (q["meta"]["fault"][1], q["meta"]["fault"][0]), replay=q)
     res.extra["interrupted_synchronisations"] = {"histories": len(inter), "fault_positions_x_kinds": npos, "faults": faults}
+    # local failures while the account is stored: registration / contact update / key roll-over / both, two attempts of one daemon process, every
+    # hook invocation of the last phase failing in turn (the account file's own hooks fail *after* the CA accepted the request): what the daemon
+    # holds in memory must stay in step with the CA, so the next attempt of the same process neither registers again nor signs with a key the CA dropped
+    from . import c04
+    lf_runs = 0
+    for kt, flow, kt2 in [("ecdsa-p256", "register", None), ("ecdsa-p256", "contacts", None), ("ecdsa-p256", "rollover", "ecdsa-p384"), ("ecdsa-p384", "both", "ed25519")]:
+        base = c04.flow_request(kt, flow, kt2)
+        base["phases"][-1]["attempts"] = 2
+        dry_o = e1.run_all(ctx.pool, [base], 120.0)[0]
+        e1.check_obs(dry_o)
+        # choice points before the last phase are not deviated from
+        n_before = 0
+        if len(base["phases"]) > 1:
+            ph = -1
+            for x in dry_o.get("events", []):
+                if x and x.get("ev") == "phase_start":
+                    ph += 1
+                if x and x.get("ev") in ("req", "hook") and ph < len(base["phases"]) - 1 and x.get("cp") is not None:
+                    n_before = max(n_before, x["cp"] + 1)
+
+        def on_exec(r, o, sc, flow=flow):
+            nonlocal lf_runs
+            lf_runs += 1
+            res.evaluations += 1
+            res.transitions += len(o.get("cps", []))
+            where = "+".join("%s" % x.get("tag") for x in sc) or "nodev"
+            res.state_keys.add(("local-failure", flow, where))
+            res.outcomes["local-failure|%s|%s" % (flow, flows.outcome_class(o)[-40:])] += 1
+            for (oracle, c, ex, ob) in oracles.c04(r, o):
+                res.violation("request-valid", "C11|request-valid|local-failure|flow=%s|%s" % (flow, oracle), "every account request verifies under the key the CA holds",
+                              "%s (hook failure at %s)" % (ob, where), replay=r)
+            # registrations within the last phase (one process): at most one unless the CA said the account is unknown
+            ph = -1
+            regs = 0
+            adne = 0
+            for x in o.get("events", []):
+                if not x:
+                    continue
+                if x.get("ev") == "phase_start":
+                    ph += 1
+                    regs = 0
+                elif x.get("ev") == "req" and ph == len(r["phases"]) - 1:
+                    if x.get("kind") == "newAccount" and not x.get("rejected") and str(x.get("answer", "ok")) == "ok":
+                        regs += 1
+                    if x.get("unknown_kid") or "accountDoesNotExist" in str(x.get("answer")):
+                        adne += 1
+            if regs > 1 + adne or (flow != "register" and regs > adne):
+                res.violation("register-only-when-needed", "C11|register-only-when-needed|local-failure|flow=%s" % flow,
+                              "an account is created only when no URL is held, the CA reports it unknown, or the binding changed", "%d newAccount requests in one process (hook failure at %s)" % (regs, where), replay=r)
+            atts = e1.split_attempts([x for x in o.get("events", [])])
+            if atts and atts[-1].end is not None and len(sc) and not atts[-1].end.get("success") and not any(str(h.get("tag")) == str(sc[0].get("tag")) and h.get("answer") != "ok" for h in atts[-1].events if h and h.get("ev") == "hook"):
+                res.violation("renew-succeeds", "C11|renew-succeeds|local-failure|flow=%s" % flow, "the attempt after a local failure succeeds against a conforming CA",
+                              "last attempt failed (hook failure at %s): %s" % (where, flows.outcome_class(o)), replay=r)
+
+        st = e1.explore(ctx.pool, base, [{"hook": ["exit:1"]}], 1, on_exec, skip_cp=lambda cp: cp["kind"] != "hook", after_idx=n_before - 1, timeout=120.0)
+        flows.account_divergences(res, st)
+    res.extra["local_failure_runs"] = lf_runs
     # persistence shapes and truncation points
     ps = [{"op": "c11_persist", "shard": i, "nshards": 16, "truncate": True} for i in range(16)]
     shapes = 0
